@@ -261,7 +261,9 @@ func (progBldr *ProgBuilder) Deref() {
 		if err != nil {
 			ctx.execError(err.Error(), "")
 		}
-		ctx.actualPathStack.PushPath(lrefentry.GetSdcpbPath())
+		// Later steps append to the path, so work on a copy and leave the
+		// object owned by the data tree alone.
+		ctx.actualPathStack.PushPath(lrefentry.GetSdcpbPath().DeepCopy())
 	}
 
 	progBldr.CodeFn(derefFunc, "deref")
